@@ -31,6 +31,8 @@ C12ReachE.lean; tail of GAPS 6: non-str keys, wrong-typed values and arguments i
 dynamic-dispatch model YarlModel/Dyn.lean, C12Dyn.lean).
 Continued further in C12HeadlineMore4.lean (headline theorems for the proof modules added after the last refresh:
 C12Spec.lean; the GAPS block below cites them).
+Continued in C12HeadlineMore5.lean (C02QueryStr.lean, added later: the STRING forms of with_query / extend_query /
+update_query and the `%` operator — GAPS 2, 5, 7, 10 (c), 12).
 -/
 namespace Yarl
 open QsLemmas MdLemmas QueryUrl QsMore
@@ -477,6 +479,20 @@ GAPS:
     argument with `%41` reads back as `%41` through with_query / extend_query but as `A` through update_query.  (Also in
     C12More.lean, not restated here: `URL.build(query_string=…)` /
     `build(query=…)` — C12_build_query_string_pairs, C12_build_query_pairs.)
+    EXTENDED (the two readings side by side, and what the PARSED reading is) by C12_qstr_three_forms,
+    C12_qstr_with_extend_pairs, C12_qstr_parse_pieces, C12_qstr_update_query_exact, C12_qstr_update_query_empty,
+    C12_qstr_mod_is_update_query (C02QueryStr.lean), see C12_headline_qstr_three_forms,
+    C12_headline_qstr_with_extend_pairs, C12_headline_qstr_parse_pieces, C12_headline_qstr_update_query_exact,
+    C12_headline_qstr_mod_is_update_query (C12HeadlineMore5.lean).  Proved, for a string `s` without lone surrogates
+    (`GoodText s`): with_query(s) has the pairs `parseQslLit s`, extend_query(s) the old pairs followed by them (nothing
+    needed of the URL), update_query(s) the pairs `MultiDict(old).update(parse_qsl(s))` (hypotheses `GoodPairs
+    (queryPairs u)`, `s ≠ ""`; `update_query("")` changes nothing), and `parseQslLit s = parse_qsl(s)` when `s` has no
+    '%'; `parse_qsl(s)` is one pair per NON-EMPTY '&'-piece, split at the first '=', key and value form-decoded with
+    errors='replace' (';' is not a separator); the stored TEXT of update_query(<non-empty str>) is given for EVERY
+    string with no hypothesis.  The observation of this item is unchanged; what the parsed reading does to the BYTES of
+    an undecodable escape is KNOWN FINDING F-C02-query-replace (property C02: C02Headline.lean GAPS 8), and what it does
+    to literal '=' / ';' inside a value is C02Headline.lean GAPS 6 — neither is a violated clause of C12 (the pairs are
+    as stated).
  3. "floats are rendered by str()": `str(float)` is an INPUT of the model (`QVal.float txt kind`); only the
     finite/NaN/inf classification is modelled.  Ints: `intToStr` is proved nowhere to equal Python's
     `str(int)` beyond its definition (sign + decimal digits).
@@ -515,6 +531,14 @@ GAPS:
     key has at most as many old pairs as new ones") is one of the proved sufficient conditions for `StaleFree`
     (`_of_one_surplus_key`).  For list-valued mappings only the direction `StaleFree` (of the SLOT lists) ⟹ specified is
     stated at URL level.
+    RESTATED for the STRING form in one theorem by C12_qstr_update_query_algebra (C02QueryStr.lean; it cites
+    C12_url_update_query_str, C12_url_update_keeps_others_str, C12_url_update_query_spec_str), see
+    C12_headline_qstr_update_query_algebra, C12_headline_qstr_update_query_algebra_reachable (C12HeadlineMore5.lean): for
+    update_query(<str>) (hypotheses `GoodText s`, `s ≠ ""`, `GoodPairs (queryPairs u)` — the last one discharged for
+    `Reach` URLs and for `ReachE` URLs with `NoSurrogate u.query`) the result's pairs are `mdUpdate (queryPairs u)
+    (parse_qsl(s))`, every pair whose key is not in `parse_qsl(s)` is kept in order WITHOUT guard, and the result is
+    `mdUpdateSpec …` IFF `StaleFree (queryPairs u) (parse_qsl(s))` (then every updated key has exactly the argument's
+    pairs).  Nothing new about F-C12-multidict-tail itself.
  6. PARTLY CLOSED by C12_pairs_bad_value_rejected, C12_update_query_mapping_bad_value_rejected, C12_update_query_pairs_bad_kind,
     C12_update_query_mapping_bad_kind, C12_slotErr_kinds (C12More.lean), see C12_headline_rejects_values_pairs,
     C12_headline_update_query_rejects_values_mapping, C12_headline_update_query_rejects_same_kind,
@@ -558,6 +582,9 @@ GAPS:
     on a Python string, build(encoded=False), every auto-encoding modifier, join, copies), so the hypothesis `hold` of every
     theorem above is discharged for them (the remaining `_reach_` instances — keeps_others, replaces, lists — are in
     C12More.lean: C12_reach_update_keeps_others, C12_reach_update_replaces, C12_reach_update_lists).
+    ADDED: the string-form algebra theorem of item 5 is stated with `hold` discharged for `Reach`
+    (C12_headline_qstr_update_query_algebra_reachable, C12HeadlineMore5.lean; a composition with
+    C12_constructor_goodpairs).
  8. `mdUpdate` is a hand model of multidict 6.2 `_update_items` (checked by the differential harness); there
     is no proof link to multidict's source.  kwargs-vs-positional conflicts (`.noArgs`, both given) are
     modelled only as `.noArgs → ValueError`.  (C12Dyn.lean adds, model-level: the keyword forms `f(k=v, …)` as
@@ -604,6 +631,10 @@ GAPS:
     from C12_headline_update_keeps_others_mapping_str / _replaces_mapping_str with `hold` from
     C12_headline_reachE_good_pairs); with_query / extend_query with a string argument need no hypothesis on `u` at all
     (C12_headline_with_query_str, C12_headline_extend_query_str).
+    PARTLY CLOSED: the STRING-argument clauses of update_query (is-multidict-update, keeps-others, specified-iff-StaleFree,
+    replaces under `StaleFree`) ARE now restated over `ReachE` with the one hypothesis `NoSurrogate u.query`
+    (C12_headline_qstr_update_query_algebra_reachable, C12HeadlineMore5.lean; a composition with C12_reachE_good_pairs);
+    the single-valued-mapping forms over `ReachE` are still not restated.
 11.  NEW.  Trusted definitions and side conditions introduced by the theorems that sharpen 5 and partly close 8
     (C12Spec.lean).  (a) `mdUpdateSpec` (with `ranked`) is a hand-written SPECIFICATION of what
     `MultiDict(old).update(arg)` is meant to do; that it is the intended behaviour of multidict is a matter of READING
@@ -624,5 +655,14 @@ GAPS:
     the model function `mdUpdate`: that the REAL multidict 6.2 fails exactly on the non-`StaleFree` inputs is not proved
     (item 8); the differential harness compares `mdUpdate` with the library on the inputs it generates, and whether
     those include non-`StaleFree` inputs other than the known witness was not examined for this item.
+12. NEW (with C02QueryStr.lean).  The `%` operator (`URL.__mod__`).  The model has NO separate operation for it: in the
+    library it is the single line `return self.update_query(query)` — a READING of the source, not a theorem and not a
+    generated fact — so every update_query statement of this file is taken to be the statement for `url % q`.  What is
+    proved is only that the model's untyped positional entry point `dynUpdateQuery` (YarlModel/Dyn.lean, a hand
+    transcription: item 10 (a)) on a `str` / plain `str` subclass IS the typed `updateQuery` on that string
+    (C12_qstr_mod_is_update_query, see C12_headline_qstr_mod_is_update_query, C12HeadlineMore5.lean).  Whether the
+    differential harness exercises `%` separately from `update_query` was not examined for this item.  Trusted
+    definitions used by the string-form statements: `R15.pieces`, `R15.keyText`, `R15.valText` (C02QueryStr.lean; spelled
+    out in C02_headline_qstr_vocabulary_def, C02HeadlineMore5.lean), `formDecode`, `parseQslLit` (item 2).
 -/
 end Yarl
